@@ -443,6 +443,14 @@ def runOp (j : Json) : M Json := do
       let w ← get
       set { w with tss := w.tss.push ts' }
       pure (jOk (jNat w.tss.size))
+  | "ts.reload_xml" =>
+    -- load_typesystem(ts.to_xml())
+    let ti ← liftP (fldNat j "ts")
+    let ts ← getTs ti
+    res (do let d ← TsXml.toDescriptor K ts; TsXml.load K d) fun ts' => do
+      let w ← get
+      set { w with tss := w.tss.push ts' }
+      pure (jOk (jNat w.tss.size))
   | "ts.merge" =>
     let idxs ← liftP (do natList (← fld j "inputs"))
     let inputs ← idxs.mapM getTs
